@@ -43,6 +43,9 @@ type hop struct {
 	dirTok   string
 	stop     int
 	out      string
+	// mayApply: a mutation issued through a flushkv wrapper that answered `closed`: flushkv runs the mutation and then
+	// Flush(), so the error may come from the Flush of a mutation that did take effect (printed as an `hf` line)
+	mayApply bool
 }
 
 func (o *hop) line() string {
@@ -58,15 +61,20 @@ func (o *hop) line() string {
 		op = "close"
 	}
 
-	return fmt.Sprintf("h %d %d %s => %s", o.inv, o.ret, op, o.out)
+	tag := "h"
+	if o.mayApply {
+		tag = "hf"
+	}
+
+	return fmt.Sprintf("%s %d %d %s => %s", tag, o.inv, o.ret, op, o.out)
 }
 
 func parseLine(l string) (*hop, bool) {
 	f := strings.Fields(l)
-	if len(f) < 5 || f[0] != "h" {
+	if len(f) < 5 || (f[0] != "h" && f[0] != "hf") {
 		return nil, false
 	}
-	o := &hop{}
+	o := &hop{mayApply: f[0] == "hf"}
 	o.inv, _ = strconv.ParseUint(f[1], 10, 64)
 	o.ret, _ = strconv.ParseUint(f[2], 10, 64)
 	o.kind = f[3]
@@ -217,6 +225,7 @@ func (s *seqState) apply(o *hop) *seqState {
 }
 
 type checker struct {
+	relaxed bool // classification only: an `hf` operation may also be linearised as having taken effect
 	ops   []*hop
 	done  []bool
 	memo  map[string]struct{}
@@ -269,6 +278,9 @@ func (c *checker) search(lo, k int, st *seqState) bool {
 	sort.Slice(cands, func(a, b int) bool { return c.ops[cands[a]].ret < c.ops[cands[b]].ret })
 	for _, i := range cands {
 		o := c.ops[i]
+		if c.relaxed && o.mayApply {
+			continue
+		}
 		if st.readOnly(o) && st.answer(o) == o.out {
 			c.done[i] = true
 			ok := c.search(lo, k+1, st)
@@ -279,21 +291,29 @@ func (c *checker) search(lo, k int, st *seqState) bool {
 	}
 	for _, i := range cands {
 		o := c.ops[i]
-		if st.answer(o) != o.out {
-			continue
+		var succ []*seqState
+		if st.answer(o) == o.out {
+			succ = append(succ, st.apply(o))
 		}
-		ns := st.apply(o)
-		c.done[i] = true
-		key := c.doneKey() + "|" + ns.key()
-		if _, seen := c.memo[key]; !seen {
-			if c.search(lo, k+1, ns) {
-				c.done[i] = false
+		if c.relaxed && o.mayApply {
+			// the mutation took effect (it had passed the flag check) although the call answered `closed`
+			open := &seqState{m: st.m, closed: false}
+			forced := open.apply(o)
+			succ = append(succ, &seqState{m: forced.m, closed: st.closed})
+		}
+		for _, ns := range succ {
+			c.done[i] = true
+			key := c.doneKey() + "|" + ns.key()
+			if _, seen := c.memo[key]; !seen {
+				if c.search(lo, k+1, ns) {
+					c.done[i] = false
 
-				return true
+					return true
+				}
+				c.memo[key] = struct{}{}
 			}
-			c.memo[key] = struct{}{}
+			c.done[i] = false
 		}
-		c.done[i] = false
 	}
 
 	return false
@@ -302,8 +322,8 @@ func (c *checker) search(lo, k int, st *seqState) bool {
 const nodeBudget = 400_000
 
 // linearizable returns the verdict, the number of search nodes, and whether the search gave up.
-func linearizable(ops []*hop) (ok bool, nodes int, inconclusive bool) {
-	c := &checker{ops: ops, done: make([]bool, len(ops)), memo: map[string]struct{}{}}
+func linearizable(ops []*hop, relaxed bool) (ok bool, nodes int, inconclusive bool) {
+	c := &checker{ops: ops, done: make([]bool, len(ops)), memo: map[string]struct{}{}, relaxed: relaxed}
 	ok = c.search(0, 0, &seqState{m: map[string]string{}})
 
 	return ok, c.nodes, !ok && c.nodes > nodeBudget
@@ -320,13 +340,14 @@ type viewRec struct {
 var universe = []string{"\x01\xff\x00", "\x01\xff\x01", "\x01\x00", "\x02"}
 
 type world struct {
+	flush bool // the views are behind a flushkv wrapper
 	views []viewRec
 	clock atomic.Uint64
 	cb    atomic.Uint64
 }
 
 func newWorld(rng *hx.Rng, wrap int) *world {
-	w := &world{}
+	w := &world{flush: wrap == 1 || wrap == 3}
 	var root kvstore.KVStore = mapdb.NewMapDB()
 	switch wrap {
 	case 1:
@@ -488,24 +509,28 @@ func (w *world) exec(c *call, inCallback func()) []*hop {
 		err := vr.v.Set([]byte(c.key), []byte(c.val))
 		o.ret = w.clock.Add(1)
 		o.out = errAns(err)
+		o.mayApply = w.flush && o.out == "closed"
 	case "del":
 		o = hop{kind: "del", key: fk}
 		o.inv = w.clock.Add(1)
 		err := vr.v.Delete([]byte(c.key))
 		o.ret = w.clock.Add(1)
 		o.out = errAns(err)
+		o.mayApply = w.flush && o.out == "closed"
 	case "delp":
 		o = hop{kind: "delp", key: fk}
 		o.inv = w.clock.Add(1)
 		err := vr.v.DeletePrefix([]byte(c.key))
 		o.ret = w.clock.Add(1)
 		o.out = errAns(err)
+		o.mayApply = w.flush && o.out == "closed"
 	case "clear":
 		o = hop{kind: "delp", key: vr.realm}
 		o.inv = w.clock.Add(1)
 		err := vr.v.Clear()
 		o.ret = w.clock.Add(1)
 		o.out = errAns(err)
+		o.mayApply = w.flush && o.out == "closed"
 	case "close":
 		o = hop{kind: "close"}
 		o.inv = w.clock.Add(1)
@@ -569,9 +594,10 @@ func (w *world) exec(c *call, inCallback func()) []*hop {
 		var out []*hop
 		for _, wr := range c.writes {
 			h := &hop{inv: inv, ret: ret, kind: wr.kind, key: vr.realm + wr.key, val: wr.val, out: errAns(err)}
+			h.mayApply = w.flush && h.out == "closed"
 			out = append(out, h)
-			if err != nil {
-				break // a failed Commit is one failed operation
+			if err != nil && !w.flush {
+				break // a failed Commit of a bare store is one failed operation (behind flushkv its writes may have happened)
 			}
 		}
 
@@ -591,7 +617,7 @@ type result struct {
 
 func runStress(rng *hx.Rng, r *hx.Run) result {
 	wrap := rng.Intn(4)
-	allowClose := wrap != 1 && wrap != 3 && rng.Chance(1, 4)
+	allowClose := rng.Chance(1, 4)
 	g := rng.Range(2, 16)
 	// keep histories checkable: the more goroutines, the fewer calls each
 	maxN := 40
@@ -649,6 +675,103 @@ func runStress(rng *hx.Rng, r *hx.Run) result {
 	r.Count(fmt.Sprintf("inflight:%02d", inflight))
 	r.Count(fmt.Sprintf("wrap:%d", wrap))
 	r.CountN("debug-callbacks", int(w.cb.Load()))
+
+	return res
+}
+
+// parkStore forwards every call to the wrapped store; its Flush first runs a hook (once).  Placed under a flushkv wrapper it
+// makes the schedule "goroutine descheduled between flushkv's mutation and the Flush() that follows it" reproducible.
+type parkStore struct {
+	kvstore.KVStore
+	hook *func()
+}
+
+func (p *parkStore) WithRealm(r kvstore.Realm) (kvstore.KVStore, error) {
+	v, err := p.KVStore.WithRealm(r)
+	if err != nil {
+		return nil, err
+	}
+
+	return &parkStore{KVStore: v, hook: p.hook}, nil
+}
+
+func (p *parkStore) WithExtendedRealm(r kvstore.Realm) (kvstore.KVStore, error) {
+	v, err := p.KVStore.WithExtendedRealm(r)
+	if err != nil {
+		return nil, err
+	}
+
+	return &parkStore{KVStore: v, hook: p.hook}, nil
+}
+
+func (p *parkStore) Flush() error {
+	if h := *p.hook; h != nil {
+		*p.hook = nil
+		h()
+	}
+
+	return p.KVStore.Flush()
+}
+
+// runFlushClose: forced schedule.  A mutation issued through flushkv has been applied by the wrapped store; before
+// flushkv calls Flush() another goroutine reads the store and a third one closes it.  flushkv then answers ErrStoreClosed
+// for a mutation that took effect and was observed.
+func runFlushClose(rng *hx.Rng, r *hx.Run) result {
+	res := result{desc: "flushclose"}
+	w := &world{flush: true}
+	base := mapdb.NewMapDB()
+	var hook func()
+	ps := &parkStore{KVStore: base, hook: &hook}
+	fv, err := flushkv.New(ps).WithRealm([]byte{0x01})
+	if err != nil {
+		panic(err)
+	}
+	bv, _ := base.WithRealm([]byte{0x01})
+	w.views = []viewRec{{fv, "\x01"}, {bv, "\x01"}, {base, ""}}
+	pre := call{kind: "set", view: 1, key: "\xff\x00", val: "\xee\x00"}
+	res.ops = append(res.ops, w.exec(&pre, nil)...)
+	var mut call
+	switch rng.Intn(5) {
+	case 0:
+		mut = call{kind: "set", view: 0, key: "\xff\x00", val: "\x01\x01"}
+	case 1:
+		mut = call{kind: "del", view: 0, key: "\xff\x00"}
+	case 2:
+		mut = call{kind: "delp", view: 0, key: "\xff"}
+	case 3:
+		mut = call{kind: "clear", view: 0}
+	default:
+		mut = call{kind: "commit", view: 0, writes: []call{{kind: "set", key: "\xff\x00", val: "\x01\x02"}}}
+	}
+	written, closed := make(chan struct{}), make(chan struct{})
+	hook = func() { close(written); <-closed }
+	var mops []*hop
+	finished := make(chan struct{})
+	go func() { defer close(finished); mops = w.exec(&mut, nil) }()
+	select {
+	case <-written:
+	case <-finished: // the mutation never reached Flush
+	case <-time.After(20 * time.Second):
+		res.timedOut = true
+
+		return res
+	}
+	rd := call{kind: "get", view: 2, key: "\x01\xff\x00"}
+	res.ops = append(res.ops, w.exec(&rd, nil)...)
+	cl := call{kind: "close", view: rng.Intn(3)}
+	res.ops = append(res.ops, w.exec(&cl, nil)...)
+	close(closed)
+	select {
+	case <-finished:
+	case <-time.After(20 * time.Second):
+		res.timedOut = true
+
+		return res
+	}
+	res.ops = append(res.ops, mops...)
+	after := call{kind: "has", view: 1, key: "\xff\x00"}
+	res.ops = append(res.ops, w.exec(&after, nil)...)
+	r.Count("scenario:flushclose")
 
 	return res
 }
@@ -719,7 +842,7 @@ func emit(r *hx.Run, sub uint64, res result) {
 	sort.Slice(ops, func(i, j int) bool { return ops[i].inv < ops[j].inv })
 	ok, nodes, inconclusive := false, 0, false
 	if !res.timedOut {
-		ok, nodes, inconclusive = linearizable(ops)
+		ok, nodes, inconclusive = linearizable(ops, false)
 	}
 	if inconclusive {
 		// the search gave up (too many calls in flight for too long): the history decides nothing, drop it
@@ -761,14 +884,33 @@ func emit(r *hx.Run, sub uint64, res result) {
 	if mx, _ := r.Extra["max_checker_nodes_per_history"].(int); nodes > mx {
 		r.Extra["max_checker_nodes_per_history"] = nodes
 	}
+	verdict := "accept"
 	if !ok {
-		detail := "history is not linearizable w.r.t. the ordered-map contract (" + res.desc + "): " + strings.Join(lines, " ; ")
+		verdict = "reject not-linearizable"
+		// classify: does it become linearizable once the flushkv mutations that answered `closed` may have taken effect?
+		cause := "other"
+		for _, o := range ops {
+			if o.mayApply {
+				if okRelaxed, _, _ := linearizable(ops, true); okRelaxed {
+					cause = "flushkv-mutation-applied-but-flush-closed"
+				}
+
+				break
+			}
+		}
+		r.Count("not-linearizable:" + cause)
+		detail := "history is not linearizable w.r.t. the ordered-map contract (" + res.desc + ", cause " + cause + "): " + strings.Join(lines, " ; ")
 		if len(detail) > 6000 {
 			detail = detail[:6000] + " …"
 		}
-		r.Fail("linearizable", detail, map[string]string{"oracle": "not-linearizable", "scenario": strings.Fields(res.desc)[0]})
+		sig := map[string]string{"oracle": "not-linearizable", "scenario": strings.Fields(res.desc)[0], "cause": cause}
+		if cause != "other" {
+			sig["api"] = "flushkv mutator (Set/Delete/DeletePrefix/Clear/batch Commit)"
+			sig["trigger"] = "Close between the wrapped store's mutation and the Flush() that flushkv issues after it"
+		}
+		r.Fail("linearizable", detail, sig)
 	}
-	r.Line("end", "accept")
+	r.Line("end", verdict)
 	if overlaps >= 3 && crossReads >= 1 {
 		h := sha256.Sum256([]byte(strings.Join(lines, "\n")))
 		r.Nontrivial(string(h[:8]))
@@ -781,7 +923,8 @@ func emit(r *hx.Run, sub uint64, res result) {
 func main() {
 	r := hx.Start()
 	r.Rule = "stress histories of 2..16 goroutines x 6..40 calls on 4 full keys seen through 3-4 shared views of realms '', 01, 01ff " +
-		"(bare mapdb / flushkv / debug / flushkv∘debug; Close only without flushkv) + forced-schedule snapshot scenarios; " +
+		"(bare mapdb / flushkv / debug / flushkv∘debug; Close in a quarter of the histories) + forced-schedule scenarios (snapshot; " +
+		"flushkv mutation parked between its write and its Flush while the store is closed); " +
 		"non-trivial = at least 3 operations invoked while an earlier one was still running and at least one Get that returned a value; " +
 		"distinct by sha256 of the history lines"
 	if lines := r.ReplayLines(); lines != nil {
@@ -806,6 +949,8 @@ func main() {
 		var res result
 		if i%8 == 7 {
 			res = runSnapshot(rng, r)
+		} else if i%50 == 3 {
+			res = runFlushClose(rng, r)
 		} else {
 			res = runStress(rng, r)
 		}
